@@ -28,6 +28,7 @@ type gate struct {
 	mu      sync.Mutex
 	pending map[int]chan struct{} // goroutine -> grant channel
 	done    chan int
+	ack     chan struct{} // the scheduler has logged what this call did: only then does the call return to its goroutine
 	free    bool // free-running mode: no scheduling (race-detector runs)
 }
 
@@ -57,6 +58,7 @@ func (s *schedRepo) enter(method string) func() {
 			s.after(s.g, method)
 		}
 		s.gt.done <- s.g
+		<-s.gt.ack
 	}
 }
 
@@ -244,7 +246,7 @@ func opConc() error {
 		}
 		emit(map[string]any{"ev": "scenario", "par": par, "work": wk, "base": base, "conc": conc, "groups": perG})
 		// ---- run
-		gt := &gate{pending: map[int]chan struct{}{}, done: make(chan int), free: free}
+		gt := &gate{pending: map[int]chan struct{}{}, done: make(chan int), ack: make(chan struct{}), free: free}
 		var wg sync.WaitGroup
 		finished := make(chan int, 16)
 		live := 0
@@ -295,7 +297,16 @@ func opConc() error {
 				for k := 0; k < cnt; k++ {
 					// the read itself is one repository call; the snapshot is taken under the same grant
 					tip := s.Svc.Headers.GetTip()
-					_ = tip
+					if !free {
+						// what the service ANSWERED (not what the table held under the grant): it must be a tip this very call saw
+						tid := -1
+						if tip != nil {
+							if id, ok := c.ByHash[tip.Hash.String()]; ok {
+								tid = id
+							}
+						}
+						emit(map[string]any{"ev": "readret", "g": rg, "tip": tid})
+					}
 					if free {
 						// free-running (race detector) mode: the HTTP read paths as well
 						s.HTTP("GET", "/api/v1/chain/tip", nil, nil)
@@ -357,10 +368,12 @@ func opConc() error {
 					}
 					emit(map[string]any{"ev": "read", "g": pick, "tip": tipID, "st": st, "ht": ht})
 					stats["reads"]++
+					gt.ack <- struct{}{}
 				} else {
 					ch <- struct{}{}
 					<-gt.done
 					stats["calls"]++
+					gt.ack <- struct{}{}
 				}
 			}
 		}
@@ -371,7 +384,26 @@ func opConc() error {
 		default:
 		}
 		st, ht, cum := snapshot()
-		emit(map[string]any{"ev": "final", "par": par, "work": wk, "base": base, "conc": conc, "st": st, "ht": ht, "cum": cum})
+		// after everything has finished, what the service and the HTTP API report as tip
+		svcTip, httpTip := -1, -1
+		if t := s.Svc.Headers.GetTip(); t != nil {
+			if id, ok := c.ByHash[t.Hash.String()]; ok {
+				svcTip = id
+			}
+		}
+		if code, body := s.HTTP("GET", "/api/v1/chain/tip/longest", nil, nil); code == 200 {
+			var tj struct {
+				Header struct {
+					Hash string `json:"hash"`
+				} `json:"header"`
+			}
+			if json.Unmarshal(body, &tj) == nil {
+				if id, ok := c.ByHash[tj.Header.Hash]; ok {
+					httpTip = id
+				}
+			}
+		}
+		emit(map[string]any{"ev": "final", "par": par, "work": wk, "base": base, "conc": conc, "st": st, "ht": ht, "cum": cum, "svctip": svcTip, "httptip": httpTip})
 		stats["scenarios"]++
 		stats["concurrent-headers"] += len(conc)
 	}
